@@ -45,7 +45,7 @@ m = {
  }],
  "checks": [],
  "not_applicable": [],
- "notes": "Every check: ./check <ID> --tier quick|thorough; exit 0 held, 1 VIOLATION (replay file), 2 harness error. VERIF_SEED honoured. Repaired defects (fixed: lines) and known findings (JSON lines) are in known_findings.txt; genuine defects of /repo were repaired in 23 unguarded `fix:` commits; no hook commits exist (hooks.source_commits is empty).",
+ "notes": "Every check: ./check <ID> --tier quick|thorough; exit 0 held, 1 VIOLATION (replay file), 2 harness error. VERIF_SEED honoured. Repaired defects (fixed: lines) and known findings (JSON lines) are in known_findings.txt; genuine defects of /repo were repaired in 24 unguarded `fix:` commits; no hook commits exist (hooks.source_commits is empty).",
 }
 for p in props:
     i = p['id']
